@@ -204,6 +204,14 @@ func builders() []builder {
 			if rapid.IntRange(0, 4).Draw(rt, "legacy") == 0 {
 				h := legacyHandle(rt, legacykm.AeadURL, 32)
 				a, a2, desc = tk.Must(aead.New(h)), tk.Must(aead.New(twinHandle(h))), "legacy AEAD adapter"
+			} else if rapid.IntRange(0, 4).Draw(rt, "envelope") == 0 {
+				// the KMS envelope AEAD through its three construction routes; the twin shares the key-encryption
+				// AEAD, so it opens what the first one sealed (added after seeded change C18j: a cache of the
+				// last unwrapped DEK in the envelope object)
+				api := gen.Pick(rt, "envelope_api", tk.EnvelopeAPIsAll)
+				dek := gen.Pick(rt, "envelope_dek", []*tinkpb.KeyTemplate{aead.AES128GCMKeyTemplate(), aead.XChaCha20Poly1305KeyTemplate(), aead.AES128CTRHMACSHA256KeyTemplate()})
+				kek := tk.Must(aead.New(tk.Must(keyset.NewHandle(aead.AES256GCMKeyTemplate()))))
+				a, a2, desc = tk.Must(tk.Envelope(api, dek, kek)), tk.Must(tk.Envelope(api, dek, kek)), "KMS envelope AEAD via "+api+", DEK "+dek.TypeUrl
 			} else {
 				c := aeadcase.Draw(rt)
 				c2 := *c
